@@ -4,27 +4,30 @@ Confirms demo passes on the clean tree, fails with the patch, the suite passes w
 the listed checks (quick) against the patched /repo and records which raise a VIOLATION.  /repo is restored."""
 import json, os, shutil, subprocess, sys
 src, sid, props = sys.argv[1], sys.argv[2], sys.argv[3:]
-dst = f"/verif/seeded/{sid}"
+VERIF = os.path.dirname(os.path.dirname(os.path.abspath(__file__)))
+REPO = os.environ.get("COBYQA_REPO", "/repo")
+dst = f"{VERIF}/seeded/{sid}"
 os.makedirs(dst, exist_ok=True)
 for f in ("patch.diff", "demo.py", "meta.json"):
-    shutil.copy(os.path.join(src, f), os.path.join(dst, f))
-env = dict(os.environ, PYTHONPATH="/repo")
+    if os.path.abspath(src) != os.path.abspath(dst):
+        shutil.copy(os.path.join(src, f), os.path.join(dst, f))
+env = dict(os.environ, PYTHONPATH=REPO)
 def run(cmd, **kw):
     return subprocess.run(cmd, capture_output=True, text=True, **kw)
-assert run(["git", "-C", "/repo", "status", "--porcelain"]).stdout.strip() == "", "repo not clean"
+assert run(["git", "-C", REPO, "status", "--porcelain"]).stdout.strip() == "", "repo not clean"
 rec = {"demo_clean": None, "demo_patched": None, "suite_patched": None, "checks": {}}
-r = run(["/venv/bin/python", os.path.join(dst, "demo.py")], env=env, cwd="/repo", timeout=600)
+r = run(["/venv/bin/python", os.path.join(dst, "demo.py")], env=env, cwd=REPO, timeout=600)
 rec["demo_clean"] = r.returncode
-a = run(["git", "-C", "/repo", "apply", os.path.join(dst, "patch.diff")])
+a = run(["git", "-C", REPO, "apply", os.path.join(dst, "patch.diff")])
 if a.returncode != 0:
     print("patch does not apply:", a.stderr); sys.exit(3)
 try:
-    r = run(["/venv/bin/python", os.path.join(dst, "demo.py")], env=env, cwd="/repo", timeout=600)
+    r = run(["/venv/bin/python", os.path.join(dst, "demo.py")], env=env, cwd=REPO, timeout=600)
     rec["demo_patched"] = r.returncode
-    t = run(["/venv/bin/python", "-m", "pytest", "-q", "-p", "no:cacheprovider", "--timeout=900"], cwd="/repo", timeout=1200)
+    t = run(["/venv/bin/python", "-m", "pytest", "-q", "-p", "no:cacheprovider", "--timeout=900"], cwd=REPO, timeout=1200)
     rec["suite_patched"] = [l for l in t.stdout.splitlines() if "passed" in l or "failed" in l][-1:]
     for p in props:
-        c = run(["/venv/bin/python", "harness/check.py", "--prop", p, "--tier", "quick"], cwd="/verif", timeout=3600)
+        c = run(["/venv/bin/python", "harness/check.py", "--prop", p, "--tier", "quick"], cwd=VERIF, timeout=3600)
         viol = [l for l in c.stdout.splitlines() if l.startswith("VIOLATION")]
         rec["checks"][p] = {"exit": c.returncode, "violations": len(viol),
                             "with_failing_input": sum(1 for l in viol if "no-failing-input-found" not in l),
@@ -34,21 +37,21 @@ try:
         if first:
             rp = first.split("replay=")[1].split()[0]
             keep = os.path.join("/tmp", "seedreplay_" + os.path.basename(rp))
-            shutil.copy(os.path.join("/verif", rp), keep)
-            rr = run(["/venv/bin/python", "harness/check.py", "--prop", p, "--tier", "quick", "--replay", keep], cwd="/verif", timeout=1800)
+            shutil.copy(os.path.join(VERIF, rp), keep)
+            rr = run(["/venv/bin/python", "harness/check.py", "--prop", p, "--tier", "quick", "--replay", keep], cwd=VERIF, timeout=1800)
             rec["checks"][p]["replay_on_patched_exit"] = rr.returncode
             rec["checks"][p]["_replay_file"] = keep
 finally:
-    run(["git", "-C", "/repo", "checkout", "--", "."])
-    shutil.rmtree("/verif/evidence/replay", ignore_errors=True)
+    run(["git", "-C", REPO, "checkout", "--", "."])
+    shutil.rmtree(VERIF + "/evidence/replay", ignore_errors=True)
 # ... and pass on the unchanged tree
 for p, info in rec["checks"].items():
     keep = info.pop("_replay_file", None)
     if keep:
-        rr = run(["/venv/bin/python", "harness/check.py", "--prop", p, "--tier", "quick", "--replay", keep], cwd="/verif", timeout=1800)
+        rr = run(["/venv/bin/python", "harness/check.py", "--prop", p, "--tier", "quick", "--replay", keep], cwd=VERIF, timeout=1800)
         info["replay_on_clean_exit"] = rr.returncode
         os.remove(keep)
-shutil.rmtree("/verif/evidence/replay", ignore_errors=True)
+shutil.rmtree(VERIF + "/evidence/replay", ignore_errors=True)
 meta = json.load(open(os.path.join(dst, "meta.json")))
 meta["what_was_run"] = rec
 meta["confirmed"] = bool(rec["demo_clean"] == 0 and rec["demo_patched"] not in (0, None) and rec["suite_patched"] and "failed" not in rec["suite_patched"][0])
